@@ -46,6 +46,10 @@ def instances(tier):
     # documented "not available" codes of power state / mode / fan speed in AC status (an AC that is offline at the console)
     for g in (4, 5):
         out.append({"kind": "not_available_codes", "gen": g})
+    # normal (non-repeated) data announced in front of the records
+    for kind in ("at5_zone_status", "at5_ac_status", "at5_timer_status"):
+        out.append({"kind": kind, "n": 2, "delta": 0, "normal": 2})
+        out.append({"kind": kind, "n": 1, "delta": 2, "normal": 5})
     # history: the same (process-wide) decoder has seen a report with another record stride before
     for kind in ("at5_zone_status", "at5_ac_status", "at5_timer_status"):
         out.append({"kind": kind, "n": 2, "delta": 2, "after": 0})
@@ -334,16 +338,19 @@ def _at4_ability(ctx, p):
 
 # ------------------------------------------------------------------------- AT5
 
-def _c0(sub, known, n, delta, ctx, prefix="r"):
+def _c0(sub, known, n, delta, ctx, prefix="r", normal=0):
     recs = [[ctx.byte(f"{prefix}{i}b{j}") for j in range(known + delta)] for i in range(n)]
-    data = framing.c0(sub, [], known + delta, n, [b for r in recs for b in r])
+    # "normal data" in front of the records (none in protocol v1.2; the document: "If the protocol is upgraded, this value may
+    # change. Use this specific value for data parsing.")
+    norm = [ctx.byte(f"{prefix}n{j}") for j in range(normal)]
+    data = framing.c0(sub, norm, known + delta, n, [b for r in recs for b in r])
     return recs, data
 
 
 def _at5_zone_status(ctx, p):
     g = Gen(5)
     zs = g.m("xC021_zone_status")
-    recs, data = _c0(0x21, 8, p["n"], p["delta"], ctx)
+    recs, data = _c0(0x21, 8, p["n"], p["delta"], ctx, normal=p.get("normal", 0))
     res, exc = _decode(g, 0xC0, data, ctx)
     lab = "at5_zone_status"
     if res is None:
@@ -370,7 +377,7 @@ def _at5_zone_status(ctx, p):
 def _at5_ac_status(ctx, p):
     g = Gen(5)
     st = g.m("xC023_ac_status")
-    recs, data = _c0(0x23, 8, p["n"], p["delta"], ctx)
+    recs, data = _c0(0x23, 8, p["n"], p["delta"], ctx, normal=p.get("normal", 0))
     res, exc = _decode(g, 0xC0, data, ctx)
     lab = "at5_ac_status"
     if res is None:
@@ -398,7 +405,7 @@ def _at5_ac_status(ctx, p):
 
 def _at5_timer_status(ctx, p):
     g = Gen(5)
-    recs, data = _c0(0x33, 9, p["n"], p["delta"], ctx)
+    recs, data = _c0(0x33, 9, p["n"], p["delta"], ctx, normal=p.get("normal", 0))
     res, exc = _decode(g, 0xC0, data, ctx)
     lab = "at5_timer_status"
     if res is None:
